@@ -1179,6 +1179,28 @@ func wrapAny(val Node, targetType *Type) Node {
 		mapLit.T = targetType
 		return mapLit
 	}
+	// Composite literals inside a grouping, concatenation, repetition or
+	// slice are coerced like the literals themselves.
+	switch v := val.(type) {
+	case *GroupExpression:
+		v.Expr = wrapAny(v.Expr, targetType)
+		return v
+	case *BinaryExpression:
+		if targetType.Name == ARRAY && (v.Op == OP_PLUS || v.Op == OP_ASTERISK) {
+			v.Left = wrapAny(v.Left, targetType)
+			if v.Op == OP_PLUS {
+				v.Right = wrapAny(v.Right, targetType)
+			}
+			v.T = targetType
+			return v
+		}
+	case *SliceExpression:
+		if targetType.Name == ARRAY {
+			v.Left = wrapAny(v.Left, targetType)
+			v.T = targetType
+			return v
+		}
+	}
 	panic(fmt.Sprintf("internal error: %s incompatible types: target %v, value %v", val.Token().Location(), targetType, valType))
 }
 
